@@ -76,6 +76,7 @@ type zzC17Tables struct {
 	Files    [][]string      `json:"files"`
 	Cwd      []string        `json:"cwd"`
 	Globs    []zzC17Glob     `json:"globs"`
+	Scribble []zzC17Glob     `json:"scribble"`
 	Matching []zzC17Matching `json:"matching"`
 }
 
@@ -423,6 +424,9 @@ func zzC17RenderClass(set []string, rng *rand.Rand) (s string) {
 
 // zzC17Srv is a real DNSFilter with its handlers, as the web API reaches it.
 type zzC17Srv struct {
+	// owner is the very slice that was passed to New in Config.SafeFSPatterns:
+	// the caller's property, which the caller may edit later.
+	owner    []string
 	d        *DNSFilter
 	handlers map[string]http.HandlerFunc
 	dataDir  string
@@ -468,6 +472,7 @@ func zzC17NewSrv(
 	client *http.Client,
 ) (s *zzC17Srv, err error) {
 	s = &zzC17Srv{handlers: map[string]http.HandlerFunc{}, dataDir: dataDir}
+	s.owner = append([]string(nil), pats...)
 	conf := &Config{
 		FilteringEnabled:  true,
 		ProtectionEnabled: true,
@@ -476,7 +481,7 @@ func zzC17NewSrv(
 		HTTPClient:        client,
 		ConfigModified:    func() {},
 		DataDir:           dataDir,
-		SafeFSPatterns:    pats,
+		SafeFSPatterns:    s.owner,
 		HTTPRegister: func(method, url string, h http.HandlerFunc) {
 			s.handlers[method+" "+url] = h
 		},
@@ -1529,7 +1534,32 @@ type zzC17Inst struct {
 	srv     *zzC17Srv
 	client  *http.Client
 	dataDir string
-	pats    []string
+	// pats are the configured patterns; the instance keeps them to itself and
+	// hands a copy to every New.
+	pats []string
+	// scribblePats is what the owner writes over its copies of the pattern
+	// list; scribbled is true once it has done so (and it does so again after
+	// every restart, to the new server's copies).
+	scribblePats []string
+	scribbled    bool
+}
+
+// scribble is the environment step OwnerMutatesItsCopy: the owner of the
+// server overwrites every element of the slice it passed to New and of the
+// slice in the configuration copy that WriteDiskConfig hands out.  The
+// patterns the server was started with stay the configured ones.
+func (in *zzC17Inst) scribble() {
+	if len(in.scribblePats) == 0 {
+		return
+	}
+
+	c := Config{}
+	in.srv.d.WriteDiskConfig(&c)
+	for _, sl := range [][]string{in.srv.owner, c.SafeFSPatterns} {
+		for i := range sl {
+			sl[i] = in.scribblePats[i%len(in.scribblePats)]
+		}
+	}
 }
 
 func zzC17NewInst(dataDir string, pats []string, client *http.Client) (in *zzC17Inst, err error) {
@@ -1579,6 +1609,14 @@ func (in *zzC17Inst) exec(op zzC17Op) (status int, err error) {
 		}
 
 		in.srv.start()
+		if in.scribbled {
+			in.scribble()
+		}
+
+		return 0, nil
+	case "scribble":
+		in.scribbled = true
+		in.scribble()
 
 		return 0, nil
 	default:
@@ -1671,6 +1709,12 @@ func TestZZVerifC17Trace(t *testing.T) {
 			t.Fatalf("epoch %d: patterns %q: %v", ep, pats, serr)
 		}
 
+		// What the owner writes over its copies of the pattern list when the
+		// history says so: everything up to three levels below the root.
+		esc := zzC17EscapeGlob(root)
+		scribble := []string{esc + "/*", esc + "/*/*", esc + "/*/*/*"}
+		inst.scribblePats = scribble
+
 		nameSets := [][]string{rootSegs, baseLoc.Segs}
 		for _, p := range nodes {
 			nameSets = append(nameSets, p)
@@ -1694,12 +1738,14 @@ func TestZZVerifC17Trace(t *testing.T) {
 				act = "refresh"
 			case x < 85:
 				act = "remove"
+			case x < 89:
+				act = "scribble"
 			default:
 				act = "inject"
 			}
 
 			st := step{act: act}
-			if act != "refresh" && act != "remove" {
+			if act != "refresh" && act != "remove" && act != "scribble" {
 				st.loc = zzC17RandLoc(rng, world, nodes, cwd, pats)
 				nameSets = append(nameSets, st.loc.Segs)
 			}
@@ -1709,7 +1755,7 @@ func TestZZVerifC17Trace(t *testing.T) {
 
 		out.put(map[string]any{"act": "reset", "pats": globs, "cwd": cwd, "names": zzC17Names(nameSets...),
 			"concrete": map[string]any{"root": root, "cwd": "/" + zzC17Key(cwd), "patterns": pats,
-				"dirs": rel(dirs), "files": rel(files)}})
+				"dirs": rel(dirs), "files": rel(files), "scribble": scribble}})
 
 		byURL := map[string]zzC17Loc{}
 		prevLeaks := map[int]bool{}
@@ -1736,6 +1782,8 @@ func TestZZVerifC17Trace(t *testing.T) {
 				})
 			case "refresh":
 				op = zzC17Call("refresh", map[string]any{"whitelist": rng.Intn(2) == 0})
+			case "scribble":
+				op = zzC17Op{Kind: "scribble"}
 			case "remove":
 				if len(ls) == 0 {
 					continue
@@ -1751,7 +1799,7 @@ func TestZZVerifC17Trace(t *testing.T) {
 				op = zzC17Op{Kind: "restart", InjectURL: url, White: rng.Intn(2) == 0}
 			}
 
-			if st.act != "refresh" && st.act != "remove" {
+			if st.act != "refresh" && st.act != "remove" && st.act != "scribble" {
 				byURL[url] = st.loc
 			}
 
@@ -1782,7 +1830,7 @@ func TestZZVerifC17Trace(t *testing.T) {
 			}
 
 			rec["loc"] = st.loc
-			if st.act == "refresh" {
+			if st.act == "refresh" || st.act == "scribble" {
 				rec["loc"] = zzC17Loc{Scheme: "none", Segs: []string{}}
 			}
 
@@ -1819,6 +1867,7 @@ func TestZZVerifC17Redo(t *testing.T) {
 		Patterns []string  `json:"patterns"`
 		Dirs     []string  `json:"dirs"`
 		Files    []string  `json:"files"`
+		Scribble []string  `json:"scribble"`
 		Ops      []zzC17Op `json:"ops"`
 	}{}
 	b, err := os.ReadFile(zzGetenv("VERIF_C17_REDO"))
@@ -1849,6 +1898,8 @@ func TestZZVerifC17Redo(t *testing.T) {
 	if err != nil {
 		t.Fatal(err)
 	}
+
+	inst.scribblePats = req.Scribble
 	defer func() { inst.srv.close() }()
 
 	prev := map[int]bool{}
@@ -1920,6 +1971,10 @@ func (e *zzC17Env) runWalk(wk *zzC17WalkIn, upto int) (obs []zzC17StepObs, at in
 	if err != nil {
 		return nil, -1, "", err
 	}
+
+	for _, g := range e.tables.Scribble {
+		inst.scribblePats = append(inst.scribblePats, w.renderGlob(g, nil))
+	}
 	defer func() { inst.srv.close() }()
 
 	var matching map[string]bool
@@ -1984,6 +2039,8 @@ func (e *zzC17Env) runWalk(wk *zzC17WalkIn, upto int) (obs []zzC17StepObs, at in
 		case "inject":
 			o.URL = render(st.Loc)
 			ops = append(ops, zzC17Op{Kind: "restart", InjectURL: o.URL, White: rng.Intn(2) == 0})
+		case "scribble":
+			ops = append(ops, zzC17Op{Kind: "scribble"})
 		case "refresh":
 			ops = append(ops, zzC17Call("refresh", map[string]any{"whitelist": false}),
 				zzC17Call("refresh", map[string]any{"whitelist": true}))
